@@ -1,6 +1,9 @@
 package prop
 
 import (
+	cstypes "mods.irisnet.org/modules/coinswap/types"
+	sdkmath "cosmossdk.io/math"
+	"github.com/cosmos/cosmos-sdk/codec"
 	"math/big"
 	"bytes"
 	"encoding/hex"
@@ -43,7 +46,7 @@ func init() {
 		Assume: []string{"dropped by the modules' own export code and therefore not compared: closed HTLCs, service requests/responses/earned fees, random results", "queries run on contexts with identical height and time (pending farm rewards depend on it)", "isolated imports skip crisis' genesis invariants because the defaulted modules' escrow balances no longer match by construction; the full import does not"},
 		Cases:  func(t string) int { return tierN(t, 4, 32) },
 		Run:    runExportImport,
-		RequireTotals: aliveTotals(map[string]int64{"probes-ok-on-source:mt": 1, "probes-ok-on-source:nft": 1, "probes-ok-on-source:token": 1, "probes-ok-on-source:coinswap": 1, "probes-ok-on-source:farm": 1}),
+		RequireTotals: aliveTotals(map[string]int64{"probes-ok-on-source:mt": 1, "probes-ok-on-source:nft": 1, "probes-ok-on-source:token": 1, "probes-ok-on-source:coinswap": 1, "probes-ok-on-source:farm": 1, "checkpoints-with-ten-or-more-coinswap-pools": 1}),
 	})
 }
 
@@ -294,14 +297,45 @@ func importInto(seed string, appState []byte, height int64, t time.Time, skipCri
 func runExportImport(run *ev.Run, c int) {
 	seed := fmt.Sprintf("exp-%d-%d", run.Seed, c)
 	chain := newAllChain(run, seed, nil, time.Time{})
+	// odd cases: the accounts are born with twelve more denominations, and one of them opens a coinswap pool for each
+	// after the set-up blocks: the exported state then holds more than ten pools (two-digit liquidity-token sequence)
+	var manyDenoms []string
+	if c%2 == 1 {
+		for i := 0; i < 12; i++ {
+			manyDenoms = append(manyDenoms, fmt.Sprintf("cx%c", 'a'+rune(i)))
+		}
+		chain = newAllChainWith(run, seed, nil, time.Time{}, func(cdc codec.Codec, gs map[string]json.RawMessage) {
+			var bg banktypes.GenesisState
+			cdc.MustUnmarshalJSON(gs[banktypes.ModuleName], &bg)
+			for i := range bg.Balances {
+				if bg.Balances[i].Coins.AmountOf("tka").IsPositive() {
+					for _, d := range manyDenoms {
+						cn := sdk.NewCoins(sdk.NewInt64Coin(d, 1_000_000_000_000))
+						bg.Balances[i].Coins = bg.Balances[i].Coins.Add(cn...)
+						bg.Supply = bg.Supply.Add(cn...)
+					}
+				}
+			}
+			gs[banktypes.ModuleName] = cdc.MustMarshalJSON(&bg)
+		})
+	}
 	blocks := tierN(run.Tier, 125, 250)
 	for b := 1; b <= blocks; b++ {
+		if len(manyDenoms) > 0 && b == 30 {
+			a := chain.r.Acc(3)
+			for _, d := range manyDenoms {
+				chain.Extra = append(chain.Extra, chain.r.Mk(a, "c12-open-pool", &cstypes.MsgAddLiquidity{MaxToken: sdk.NewInt64Coin(d, 500_000), ExactStandardAmt: sdkmath.NewInt(400_000), MinLiquidity: sdkmath.OneInt(), Deadline: chain.r.Time.Add(24 * time.Hour).Unix(), Sender: a.Addr.String()}))
+			}
+		}
 		dt := time.Duration(1+run.Rng.Intn(30)) * time.Second
 		br := chain.Step(dt)
 		if br.FinalErr != nil {
 			run.Note("block %d aborted: %v", br.Height, br.FinalErr)
 		}
 		if b%25 == 0 || b == blocks {
+			if n := len(chain.r.K.Coinswap.GetAllPools(chain.r.Ctx())); n >= 10 {
+				run.Count("checkpoints-with-ten-or-more-coinswap-pools", 1)
+			}
 			c12Checkpoint(run, chain, seed)
 			run.Count("checkpoints", 1)
 		}
